@@ -419,6 +419,7 @@ func propC19(t *rapid.T) {
 	}
 	a.state = "ready"
 	lateImport := false
+	restarts := 0
 	guarded := func(what string, f func()) {
 		o := guard.Call(120*time.Second, f)
 		if o.Kind == "panic" {
@@ -471,6 +472,31 @@ func propC19(t *rapid.T) {
 			lateImport = true
 			a.state = "a-wallet-importing"
 			w.logf("late wallet importing")
+		},
+		"restart": func(t *rapid.T) {
+			// the service is stopped and started again on the same data directory: tip copy, pending
+			// set, reservation cache, key cache and task queue are rebuilt from the database
+			if restarts >= 2 || rapid.IntRange(0, 3).Draw(t, "doRestart") > 0 {
+				t.Skip("rare")
+			}
+			restarts++
+			guarded("restart", func() {
+				if err := w.env.Restart(); err != nil {
+					panic(fmt.Sprintf("restart: %v", err))
+				}
+				if err := w.env.StartStepped(); err != nil {
+					panic(fmt.Sprintf("HARNESS: %v", err))
+				}
+			})
+			srv, err := api.NewAPIServer(&sim.Server{N: w.node}, w.env.W, func() {}, w.env.Cfg)
+			if err != nil {
+				t.Fatalf("HARNESS: api server: %v", err)
+			}
+			a.srv = srv
+			if a.state != "a-wallet-importing" {
+				a.state = "no-wallet-selected"
+			}
+			w.logf("restart")
 		},
 		"serve": func(t *rapid.T) {
 			if !w.taskPending(t) {
